@@ -151,11 +151,12 @@ class WebSocketCodec(BaseComponent):
                     break
                 # check for Ping
                 elif opcode == 9:
-                    if self._close_sent:
-                        return msgs
-                    frame = bytearray(b'\x8a')
-                    frame += self._encode_tail(msg, self._sock is None)
-                    self._write(frame)
+                    # (no pong once our close frame is out; what follows the
+                    # ping in this read is still to be decoded)
+                    if not self._close_sent:
+                        frame = bytearray(b'\x8a')
+                        frame += self._encode_tail(msg, self._sock is None)
+                        self._write(frame)
             else:
                 self._pending_payload = msg
                 if opcode != 0:
